@@ -1,5 +1,5 @@
 (* C08 — FlushRevert restores exactly the previous Flush and always terminates. *)
-From GK Require Import Base Treap Store Codec CodecProofs Disk DiskProofs.
+From GK Require Import Base Treap Store StoreSpec StoreRefine Codec CodecProofs Disk DiskProofs DStore DStoreRefine.
 
 (* termination: the scan of FlushRevert never runs out of fuel, for every file and size *)
 Theorem c08_terminates : forall f size,
@@ -28,3 +28,20 @@ Theorem c08_reopen_agrees : forall f e m, root_at f e = Some m ->
   let f' := firstn (Z.to_nat e) f in blen f' = e /\ scan f' (blen f') = ScanFound e m.
 Proof. exact DiskProofs.revert_reopens. Qed.
 Print Assumptions c08_reopen_agrees.
+
+(* over whole histories: with any number of flushes, re-opens, pending changes and consecutive reverts (also past the
+   first flush), the byte-level store answers exactly like the store whose FlushRevert pops a stack of flushed states *)
+Theorem c08_walks_back : forall ops, ops_ok [] ops -> history_ok ops -> drun dinit ops = run (init true) ops.
+Proof. exact DStoreRefine.dstore_refines_store_exact. Qed.
+Print Assumptions c08_walks_back.
+
+(* REFUTED without the "no spurious root record" side condition: a committed value that is itself a complete root
+   record consistent with the position it lands at stops FlushRevert (the model returns no collections where the
+   previous Flush held collection a).  The same history fails on the implementation: known finding
+   value-is-valid-root-record, probed on every run. *)
+Theorem c08_refuted_value_is_root_record :
+  ops_ok [] cex_history /\ dhist_ok0 dinit cex_history = true /\
+  drun dinit cex_history = [ROk; ROk; ROk; ROk; ROk; RNames []] /\
+  run (init true) cex_history = [ROk; ROk; ROk; ROk; ROk; RNames [[97%N]]].
+Proof. exact DStoreRefine.h4_needed. Qed.
+Print Assumptions c08_refuted_value_is_root_record.
